@@ -51,6 +51,7 @@ def run(ctx):
     malsec.dzkp_verify_guard(ctx, facts, "GUARD-dzkp")
     malsec.dzkp_validate_path(ctx, facts, "PATH-verdict")
     malsec.batch_store_grows(ctx, facts, "STORE-grow")
+    malsec.segment_packing(ctx, facts, "PACK-slots")
     tables(ctx, facts)
     ctx.assume("Lagrange interpolation identities and the u/v table algebra are not decided")
 
